@@ -124,15 +124,20 @@ PROPS["C05"] = dict(
     title="Snapshots, read transactions and iterators are frozen in time",
     modules=["FjallModel.Props.C05"],
     theorems=["Fjall.Tracker.c05_tracker_inv", "Fjall.Tracker.c05_tracker_inv_run", "Fjall.Tracker.c05_watermark_monotone",
-              "Fjall.Tracker.c05_live_instant_protected", "Fjall.Tracker.c05_counterexample_gc_sentinel"],
+              "Fjall.Tracker.c05_live_instant_protected", "Fjall.Tracker.c05_counterexample_gc_sentinel",
+              "Fjall.Conc.c05_watermark_below_views"],
     statements={
+        "c05_watermark_below_views": "Conc model, forall programs and schedules (two-step open under the shared GC lock, write floor, registrations, gc after rotations / ingestions / "
+                                     "explicit): the GC watermark is <= the instant of every live view and <= the instant any open in progress will get",
         "c05_tracker_inv": "in every state reachable by open/clone/close/publish/set/gc(any DashMap order)/pullup with nonces closed once: "
                            "table counts every live nonce; watermark <= I-1 for every live instant I; watermark <= visible-1; no future keys",
         "c05_watermark_monotone": "no step decreases the GC watermark (pullup stores visible-1; safe by the invariant)",
         "c05_counterexample_gc_sentinel": "the pre-fix gc (0 as 'nothing yet' marker) on table {5,0,9} in that order yields watermark 8 > live 5 (F19, fixed)",
     },
-    engines=[dict(bin="tracker", cases_quick=2000, cases_thorough=40000, profiles=["release"], profiles_thorough=["release", "dev"])],
-    rule="case = random sequence of snapshot open (half the cases start with a snapshot of the fresh database, instant 0) / drop / writes "
+    engines=[dict(bin="tracker", cases_quick=2000, cases_thorough=40000, profiles=["release"], profiles_thorough=["release", "dev"]),
+             dict(bin="conc", cases_quick=240, cases_thorough=6000, profiles=["release"])],
+    rule="conc: schedule-controlled threads (see C06) with tracker GC runs and GC-lock block probes (a gc started while an open() is parked between its two loads must wait), "
+         "watermark compared with the model after every step, oracle 'watermark <= every live snapshot instant'. tracker: case = random sequence of snapshot open (half the cases start with a snapshot of the fresh database, instant 0) / drop / writes "
          "(publish) / keyspace creation / tracker gc / pullup on a real database; after every step open_snapshots(), the GC watermark and "
          "the visible seqno are compared with the Lean tracker model, and the oracle 'watermark <= every live instant > 0' is checked. "
          "non-trivial = two nonces share an instant or a gc runs while a nonce is alive",
@@ -214,7 +219,8 @@ PROPS["C01"] = dict(
         "c01_maintenance_invisible": "rotate, flush w, compact i n w never change absGet, for any tree satisfying the invariant",
         "c01_invariant_reachable": "Ordered (lookup order = seqno order) and Distinct hold in every reachable state",
     },
-    engines=[dict(bin="kv", cases_quick=640, cases_thorough=20000, profiles=["release"], profiles_thorough=["release", "dev"])],
+    engines=[dict(bin="kv", cases_quick=640, cases_thorough=20000, profiles=["release"], profiles_thorough=["release", "dev"]),
+             dict(bin="conc", cases_quick=240, cases_thorough=6000, profiles=["release"])],
     rule="case = program of 20-70 (thorough: 200) ops over 1-3 keyspaces x configurations {standard | blob-separated (threshold 64 B)} x "
          "{default | 1 KB memtable}; writes: insert, remove, multi-keyspace batch, clear, sorted bulk ingestion with tombstones; maintenance as a "
          "controlled input with 0 worker threads: rotate_memtable, one queued worker message at a time (flush / compact / rotate) through the "
